@@ -7,6 +7,7 @@
    runtimes and are explored by K10 (harness/misc_checks.py), not proved. *)
 From Coq Require Import List NArith ZArith Permutation.
 Require Import Base Mol Partition Final Serialize SortProofs HashOrder SerializeProofs.
+Require ParamsSpec.   (* regenerated source constants still match what the model hard-codes *)
 
 (* set(attr_seqs) -> sorted(): any iteration order and any multiplicities of the same elements
    give the same ranking *)
